@@ -29,6 +29,9 @@ type Case struct {
 	// GroupFields (metamorphic relation on the implementation).
 	Group       string
 	GroupFields []string
+	// GroupCheck: optional relation between the implementation's answer to the first
+	// case of the group and to this case ("" = holds); checked in addition to GroupFields.
+	GroupCheck func(first, self Resp) string
 	// NonTrivial decides whether the case counts as non-trivial. Optional
 	// (default: implementation class is ok/runtime and output non-empty).
 	NonTrivial func(impl Resp) bool
@@ -235,6 +238,13 @@ func runCheck(prop, tier string, seed int64, modelPath, selfPath, replayDir, out
 			first := ParseResp(implOut[idx[0]])
 			for _, i := range idx[1:] {
 				r := ParseResp(implOut[i])
+				if cases[i].GroupCheck != nil {
+					if w := cases[i].GroupCheck(first, r); w != "" {
+						what := fmt.Sprintf("group %s: %s vs %s: %s", g, cases[idx[0]].ID, cases[i].ID, w)
+						p := writeReplay(replayDir, prop, fam.Name, cases[i], r, first, "group", what)
+						res.Violations = append(res.Violations, violation{fam.Name, cases[i].ID, "group", what, p, caseKey(cases[i])})
+					}
+				}
 				for _, f := range cases[i].GroupFields {
 					if r[f] != first[f] {
 						what := fmt.Sprintf("group %s: field %s differs between %s and %s: %s vs %s", g, f, cases[idx[0]].ID, cases[i].ID, short(first[f]), short(r[f]))
